@@ -208,18 +208,20 @@ def rule_F2(ctx: Ctx) -> None:
         _, rec = _format_of_writer(w)
         wk = X.keys_written(rec) or set()
         rk = _reader_keys(r)
-        dropped = sorted(wk - rk - {"__format__"} - set(REDUNDANT))
+        dropped = sorted(wk - rk - {"__format__"} - set(REDUNDANT))  # reported, not judged: an extra stored key is harmless
         ctor = [c for c in X.calls(r.node) if X.U(c.func) == "cls"]
         passed = set()
+        dparam = r.params()[1]
         if len(ctor) == 1:
-            passed = {k.arg for k in ctor[0].keywords if k.arg}
             for k in ctor[0].keywords:
+                if k.arg and (dparam in N.names_in(k.value) or any(dparam in N.names_in(d) for nm in N.names_in(k.value) for d in X.assignments_to(r.node, nm))):
+                    passed.add(k.arg)  # the component is computed from the stored data
                 if k.arg is None and isinstance(k.value, ast.DictComp):
                     it = k.value.generators[0].iter
                     if isinstance(it, ast.List):
                         passed |= {e.value for e in it.elts if isinstance(e, ast.Constant)}
-        ctx.judge(r, not dropped and passed == init_params,
-                  {"writer": w.name, "reader": r.name, "stored_but_never_read": dropped, "constructor_arguments": sorted(passed),
+        ctx.judge(r, passed == init_params,
+                  {"writer": w.name, "reader": r.name, "stored_but_never_read": dropped, "constructor_arguments_from_data": sorted(passed),
                    "constructor_parameters": sorted(init_params), "tabulated_redundant_keys": REDUNDANT},
                   "every stored component is read back and passed to the constructor (cfg, mazes, generation_metadata_collected)",
                   "a stored component (e.g. the collected generation metadata) silently disappears in the round trip")
